@@ -6,7 +6,7 @@ from common import R, Rvec, Cx, fl, cfl, ModelError
 
 from common import wiring_pre_build as pre_build  # noqa: E402,F401
 
-LEAN_MODULES = ["PyomaVerif.Props.C06", "PyomaVerif.Mutants.C06", "PyomaVerif.Props.WiringMpe", "PyomaVerif.Props.C06C13", "PyomaVerif.Props.C06Faithful", "PyomaVerif.Props.WiringStore", "PyomaVerif.Props.WiringClass", "PyomaVerif.Props.WiringCalls"]
+LEAN_MODULES = ["PyomaVerif.Props.C06", "PyomaVerif.Mutants.C06", "PyomaVerif.Props.WiringMpe", "PyomaVerif.Props.C06C13", "PyomaVerif.Props.C06Faithful", "PyomaVerif.Props.WiringStore", "PyomaVerif.Props.WiringClass", "PyomaVerif.Props.WiringCalls", "PyomaVerif.Props.C06Band", "PyomaVerif.Mutants.C06Band"]
 THEOREMS = [
     # call-site wiring of the class layer, regenerated from /repo on every run (translate_wiring.py)
     "PV.WiringMpe.C06_fdd_mpe_wiring",
@@ -58,6 +58,31 @@ THEOREMS = [
     "PV.C06Faithful.C06_decomposition",
     "PV.C06Faithful.C06_gram",
     "PV.C06Faithful.C06_diagonalises",
+    # depth round 2 (Props/C06Band): non-empty band and no exception from the property's premise, |fn - sel| <= DF + df/2 on the
+    # SD_est grid (hmono discharged), FDD_mpe o SD_svalsvec picks the argmax of the ratio of the recorded SINGULAR VALUES
+    "PV.C06Band.UniformGrid.mono",
+    "PV.C06Band.UniformGrid.lt_of_lt",
+    "PV.C06Band.C06_grid_of_sd_per",
+    "PV.C06Band.C06_grid_of_sd_cor",
+    "PV.C06Band.near_upper",
+    "PV.C06Band.near_lower",
+    "PV.C06Band.C06_band_nonempty",
+    "PV.C06Band.C06_band_edges",
+    "PV.C06Band.C06_no_exception",
+    "PV.C06Band.C06_no_exception_all",
+    "PV.C06Band.C06_fn_interval",
+    "PV.C06Band.zeroInBand_false",
+    "PV.C06Band.zeroInBand_true",
+    "PV.C06Band.C06_pick_singular",
+    "PV.C06Band.C06_of_spec_ok_fdd_one",
+    "PV.C06Band.C06_of_spec_eq_fdd_one",
+    "PV.C06Band.C06_zero_sigma2_outside",
+    "PV.C06Band.exLine_contract",
+    "PV.C06Band.exLine_sqrt",
+    "PV.C06Band.ex_of_spec",
+    "PV.Mutants.C06Band.upper_tie_fails",
+    "PV.Mutants.C06Band.upper_tie_agrees_off_ties",
+    "PV.Mutants.C06Band.narrow_band_empty",
 ]
 RULE = (
     "correspondence: fdd.FDD_mpe vs Fdd.fddMpe on random increasing grids (uniform k*df and irregular), random "
@@ -75,7 +100,14 @@ RULE = (
     "a sum of 2-3 such responses gives Sy = Phi S Phi^T (1e-11 of the peak). "
     "depth round (Props/C06Faithful): fdd.SD_svalsvec vs the composed model Efdd.svalsvec, np.linalg.svd and np.sqrt recorded WITH their arguments "
     "and handed over as the library routines (svd looked up by exact match of its argument with SD[:, :, k], sqrt by its argument): exact equality; "
-    "every recorded SVD is checked against the contract the theorems assume (U^H U = I, V^H V = I, A = U diag(S) V^H at 1e-12, S sorted non-negative)"
+    "every recorded SVD is checked against the contract the theorems assume (U^H U = I, V^H V = I, A = U diag(S) V^H at 1e-12, S sorted non-negative). "
+    "depth round 2 (Props/C06Band): stream fdd.FDD_mpe[ties] -- dyadic grid k*2^-e, sel and DF in quarters of a line spacing (band edges exactly midway "
+    "between two lines), sigma1/sigma2 from a five-element dyadic set (maximum attained at several lines), Gaussian-integer shape rows with equal-magnitude "
+    "components: float arithmetic is exact, NOTHING is skipped, index/frequency exact, shape 1e-12, an exception only for DF < df (C06_band_nonempty), "
+    "|fn - sel| <= DF + df/2 (C06_fn_interval); stream fdd.FDD_mpe[of spectrum] -- SD_svalsvec then FDD_mpe on Hermitian / square / rectangular / wide / "
+    "one-reference / diag(s,0) sequences vs the ONE composed model Fdd.fddOfSpec with the recorded svd (looked up by argument) and sqrt: frequency exact, "
+    "shape 1e-12, exception class, picked line = argmax of the recorded S[0]/S[1]; an exactly zero second singular value is the model's outside-model branch "
+    "(the real code must then return without an exception)"
 )
 EXTRA_TRUSTED = [
     "np.linalg.svd contract (U unitary, S non-negative non-increasing, A = U diag(S) V^H): hypotheses of C06_convention / C06_faithful_partial, validated numerically by the oracle at 1e-9",
@@ -86,6 +118,8 @@ EXTRA_TRUSTED = [
 ASSUMPTIONS = [
     "near-ties (relative 1e-9) of band-edge distances, singular-value ratios and component magnitudes are not judged",
     "second singular value non-zero on the band (the property's full-rank spectra); len(freq) equals the number of lines of Sval",
+    "exact ties ARE judged where the arithmetic is exact (dyadic stream fdd.FDD_mpe[ties]); C06_band_nonempty / C06_no_exception / C06_fn_interval assume the "
+    "uniform grid k*df of fdd.SD_est (C06_grid_of_sd_per/_cor), at least two lines, sel between the first and the last line, DF >= df",
 ]
 
 
@@ -332,6 +366,213 @@ def correspondence(ctx):
             ctx.contract("svd_unitary_V", np.abs(Vh_ @ Vh_.conj().T - np.eye(len(Vh_))).max(), 1e-12, "V^H V = I")
             ctx.contract("svd_decomposition", np.abs((U_[:, : len(S_)] * S_) @ Vh_ - a_).max() / sc, 1e-12, "A = U diag(S) V^H")
             ctx.contract("svd_sorted_nonneg", 0.0 if (np.all(S_ >= 0) and np.all(np.diff(S_) <= 0)) else 1.0, 0.5, "S >= 0, non-increasing")
+    # (4) depth round 2: exact ties (nothing skipped) and FDD_mpe o SD_svalsvec as one model
+    _corr_ties(ctx, fdd)
+    _corr_of_spec(ctx, fdd)
+
+
+def _corr_ties(ctx, fdd):
+    """fdd.FDD_mpe[ties]: everything is dyadic, so the float arithmetic of FDD_mpe is EXACT and a tie is a tie in
+    numpy and in the rational model alike: grid k*2^-e, selected frequencies and half-widths in quarters of a line
+    spacing (band edges exactly midway between two lines half of the time), ratios sigma1/sigma2 from a five-element
+    dyadic set (the maximum of the band is attained at several lines), Gaussian-integer shapes with components of
+    equal magnitude. NO case is skipped: the first-minimum / first-maximum rules are what is compared."""
+    rng = ctx.rng
+    g = ctx.nprng()
+    gauss = [1 + 1j, 1 - 1j, -1 + 1j, -1 - 1j, 2, -2, 2j, -2j, 1, -1, 1j, 0, 3 + 4j, 5, 4 - 3j, -5j]
+    for k in range(ctx.n(120, 1500)):
+        nch = rng.randint(2, 5)
+        nf = rng.randint(2, 24)
+        df = 2.0 ** -rng.randint(0, 5)
+        freq = np.arange(nf) * df
+        nsel = rng.randint(1, 3)
+        a4 = [rng.randint(0, 4 * (nf - 1)) for _ in range(nsel)]  # sel inside the grid, in quarters of df
+        sel = [a * df / 4 for a in a4]
+        small = rng.random() < 0.15
+        b4 = rng.randint(1, 3) if small else rng.randint(4, 14)  # DF >= df unless `small`
+        DF = b4 * df / 4
+        s2 = 2.0 ** np.array([rng.randint(-3, 3) for _ in range(nf)])
+        ratio = np.array([rng.choice([1.0, 1.5, 2.0, 3.0, 4.0]) for _ in range(nf)])
+        s1 = s2 * ratio
+        if rng.random() < 0.5:
+            lvl = 2.0 ** rng.randint(-30, 30)
+            s1, s2 = s1 * lvl, s2 * lvl
+        Sval = g.uniform(0.0, 1.0, (nch, nch, nf))
+        Sval[0, 0, :] = s1
+        Sval[1, 1, :] = s2
+        Svec = np.zeros((nch, nch, nf), complex)
+        for l in range(nf):
+            row = [rng.choice(gauss) for _ in range(nch)]
+            if all(z == 0 for z in row):
+                row[rng.randrange(nch)] = 1j
+            Svec[0, :, l] = np.array(row) * 2.0 ** rng.randint(-2, 2)
+        inp = {"nch": nch, "nf": nf, "df": df, "sel_quarters": a4, "DF_quarters": b4,
+               "ratio": ratio.tolist(), "svec0": [[str(z) for z in Svec[0, :, l]] for l in range(nf)]}
+        out = _model_mpe(ctx, nch, nch, freq, Sval, Svec, sel, DF)
+        try:
+            Fn, Phi = fdd.FDD_mpe(Sval, Svec, freq, sel, DF=DF)
+            impl = {"Fn": Fn.tolist()}
+        except Exception as e:
+            impl = {"error": _exc_class(e)}
+        edge_tie = any((a - b4) % 4 == 2 or (a + b4) % 4 == 2 for a in a4)
+        if "error" in impl or "error" in out:
+            # Props/C06Band.C06_band_nonempty: sel inside the grid and DF >= df => the band is never empty
+            ok = "error" in impl and "error" in out and out["error"].startswith(impl["error"]) and small
+            ctx.count("ties_error_branch")
+        else:
+            ok = len(out["modes"]) == len(sel)
+            rtie = mtie = False
+            for i, m in enumerate(out["modes"] if ok else []):
+                idx = m["idx"]
+                ok = ok and m["lo"] <= idx < m["hi"] and fl(m["fn"]) == Fn[i] and freq[idx] == Fn[i]
+                ph = np.array([cfl(z) for z in m["phi"]]) if m["phi"] is not None else None
+                ok = ok and ph is not None and Phi[:, i].shape == ph.shape and np.max(np.abs(ph - Phi[:, i])) <= 1e-12
+                # C06Band.C06_fn_interval on the real output
+                ok = ok and abs(Fn[i] - sel[i]) <= DF + df / 2
+                r = ratio[m["lo"]: m["hi"]]
+                rtie = rtie or int(np.sum(r == r.max())) > 1
+                mag = np.abs(Svec[0, :, idx]) ** 2
+                mtie = mtie or int(np.sum(mag == mag.max())) > 1
+            ctx.count("ties_valid")
+            if rtie:
+                ctx.count("ties_ratio_max_attained_twice")
+            if mtie:
+                ctx.count("ties_component_magnitude")
+        if edge_tie:
+            ctx.count("ties_band_edge_midway")
+        ctx.corr("fdd.FDD_mpe[ties]", bool(ok), inp, out, impl, ("ties", nch, nf, b4, edge_tie))
+
+
+def _record_svalsvec(fdd, SD):
+    """fdd.SD_svalsvec(SD) with np.linalg.svd and np.sqrt recorded together with their arguments"""
+    real_svd, real_sqrt = np.linalg.svd, np.sqrt
+    rec_full, rec_sqrt = [], []
+
+    def spy(a, *args, **kw):
+        out = real_svd(a, *args, **kw)
+        rec_full.append((np.array(a), args, dict(kw), np.array(out[0]), np.array(out[1]), np.array(out[2])))
+        return out
+
+    def spy_sqrt(x, *args, **kw):
+        out = real_sqrt(x, *args, **kw)
+        if not args and not kw and np.isrealobj(x):
+            rec_sqrt.extend(zip(np.ravel(np.asarray(x, float)).tolist(), np.ravel(np.asarray(out, float)).tolist()))
+        return out
+
+    np.linalg.svd = spy
+    np.sqrt = spy_sqrt
+    try:
+        res = fdd.SD_svalsvec(SD)
+        err = None
+    except Exception as e:
+        res, err = None, e
+    finally:
+        np.linalg.svd = real_svd
+        np.sqrt = real_sqrt
+    seen, sq_tab = set(), []
+    for a_, v_ in rec_sqrt:
+        if a_ not in seen:
+            seen.add(a_)
+            sq_tab.append([R(a_), R(v_)])
+    return res, err, rec_full, sq_tab
+
+
+def _corr_of_spec(ctx, fdd):
+    """fdd.FDD_mpe[of spectrum]: SD_svalsvec followed by FDD_mpe on a spectral matrix sequence against the ONE composed
+    model Fdd.fddOfSpec (Props/C06Band.C06_pick_singular is about it): square Hermitian, square non-Hermitian and
+    rectangular (nr > nc) sequences, nr < nc (broadcast ValueError), one reference column (IndexError), and lines
+    diag(s, 0) whose second singular value is exactly zero (model: outside-model; numpy: inf/nan ratio, no exception)."""
+    rng = ctx.rng
+    g = ctx.nprng()
+    for k in range(ctx.n(40, 400)):
+        what = rng.choice(["herm", "herm", "square", "rect", "rect", "wide", "one_ref", "zero_s2"])
+        nc = rng.randint(2, 4)
+        nr = nc
+        nf = rng.randint(3, 9)
+        if what == "rect":
+            nr = nc + rng.randint(1, 2)
+        elif what == "wide":
+            nr, nc = rng.randint(2, 3), rng.randint(4, 5)
+        elif what == "one_ref":
+            nc = 1
+        SD = g.standard_normal((nr, nc, nf)) + 1j * g.standard_normal((nr, nc, nf))
+        if what == "herm":
+            SD = np.einsum("ikf,jkf->ijf", SD, SD.conj())
+        if what == "zero_s2":
+            SD = np.zeros((nr, nc, nf), complex)
+            for l in range(nf):
+                SD[0, 0, l] = float(rng.randint(1, 9))
+        SD = SD * 10.0 ** rng.uniform(-8, 6)
+        df = 2.0 ** -rng.randint(0, 4)
+        freq = np.arange(nf) * df
+        sel = [rng.uniform(freq[0], freq[-1]) for _ in range(rng.randint(1, 2))]
+        DF = rng.uniform(1.0, 3.0) * df
+        res, err, rec_full, sq_tab = _record_svalsvec(fdd, SD)
+        impl, Sval = None, None
+        if err is not None:
+            impl = {"error": _exc_class(err)}
+        else:
+            Sval, Svec = res
+            try:
+                with np.errstate(all="ignore"):
+                    Fn, Phi = fdd.FDD_mpe(Sval, Svec, freq, sel, DF=DF)
+                impl = {"Fn": Fn.tolist()}
+            except Exception as e:
+                impl = {"error": _exc_class(e)}
+        # near-tie guard (floats): band edges, ratios of the STORED values, component magnitudes
+        ok_case = True
+        if Sval is not None and nc >= 2:
+            for s_ in sel:
+                lo, hi = _nearest(freq, s_ - DF, df), _nearest(freq, s_ + DF, df)
+                if lo is None or hi is None:
+                    ok_case = False
+                    break
+                if hi > lo and what != "zero_s2":
+                    if not _gap_ok(Sval[0, 0, lo:hi] / Sval[1, 1, lo:hi]):
+                        ok_case = False
+                    for kk in range(lo, hi):
+                        if not _gap_ok(np.abs(Svec[0, :, kk]) ** 2):
+                            ok_case = False
+        if not ok_case:
+            ctx.skipped += 1
+            continue
+        inp = {"what": what, "nr": nr, "nc": nc, "nf": nf, "df": df, "sel": sel, "DF": DF,
+               "SD": [[[str(z) for z in r2] for r2 in r1] for r1 in SD.tolist()]}
+        try:
+            out = ctx.model(
+                "fdd_of_spec", nr=nr, nc=nc, nf=nf,
+                Sy=[[[Cx(SD[i, j, l]) for l in range(nf)] for j in range(nc)] for i in range(nr)],
+                freq=Rvec(freq), sel=Rvec(sel), DF=R(DF),
+                svd=[{"A": [[Cx(z) for z in row] for row in a_], "U": [[Cx(z) for z in row] for row in U_], "S": Rvec(S_)} for (a_, _, _, U_, S_, _) in rec_full],
+                sqrt=sq_tab,
+            )
+        except ModelError as e:
+            out = {"error": "model-error: " + str(e)}
+        if "error" in out and out["error"].startswith("outside-model"):
+            # the model declines: the real code must have gone on without an exception, on a band holding an exact zero
+            ok = what == "zero_s2" and "error" not in impl and bool(np.any(Sval[1, 1, :] == 0))
+            ctx.count("of_spec_outside_model_zero_sigma2")
+        elif "error" in impl or "error" in out:
+            ok = "error" in impl and "error" in out and out["error"].startswith(impl["error"])
+            ctx.count("of_spec_error_" + (impl.get("error") or "model-only"))
+        else:
+            ok = len(out["modes"]) == len(sel) and all(c[1] == () and c[2] == {} for c in rec_full) and len(rec_full) == nf
+            for i, m in enumerate(out["modes"] if ok else []):
+                idx = m["idx"]
+                ok = ok and m["lo"] <= idx < m["hi"] and fl(m["fn"]) == Fn[i] and freq[idx] == Fn[i]
+                ph = np.array([cfl(z) for z in m["phi"]]) if m["phi"] is not None else None
+                ok = ok and ph is not None and Phi[:, i].shape == ph.shape and np.max(np.abs(ph - Phi[:, i])) <= 1e-12
+                # C06_pick_singular on the recorded singular values: argmax of S[0]/S[1] over the band (well separated)
+                rS = np.array([c[4][0] / c[4][1] for c in rec_full[m["lo"]: m["hi"]]])
+                if _gap_ok(rS, 1e-6):
+                    ok = ok and m["lo"] + int(np.argmax(rS)) == idx
+                    ctx.count("of_spec_argmax_of_recorded_singular_values")
+            ctx.count("of_spec_valid_" + what)
+            for (a_, _, _, U_, S_, Vh_) in rec_full[:2]:
+                sc = max(np.abs(a_).max(), 1e-300)
+                ctx.contract("svd_unitary_U", np.abs(U_.conj().T @ U_ - np.eye(len(U_))).max(), 1e-12, "U^H U = I")
+                ctx.contract("svd_decomposition", np.abs((U_[:, : len(S_)] * S_) @ Vh_ - a_).max() / sc, 1e-12, "A = U diag(S) V^H")
+        ctx.corr("fdd.FDD_mpe[of spectrum]", bool(ok), inp, out, impl, (what, nr, nc, nf))
 
 
 # ----------------------------------------------------------------------------- oracle
